@@ -364,6 +364,32 @@ func init() {
 		}
 		c.Fact("sessions.lookup_before_transport", shape)
 
+		// --- the body of a stateful POST is read by the session's transport only (inside ServeHTTP, i.e. after
+		// lookupSession and startPOST): the handler itself never touches req.Body, and hands req to nothing else
+		if fd := c.Func(dir, "StreamableHTTPHandler", "serveStatefulPOST"); fd != nil {
+			bodyRefs := 0
+			var reqTo []string
+			ast.Inspect(fd.Body, func(x ast.Node) bool {
+				switch n := x.(type) {
+				case *ast.SelectorExpr:
+					if c.Src(n.X) == "req" && n.Sel.Name == "Body" {
+						bodyRefs++
+					}
+				case *ast.CallExpr:
+					for _, a := range n.Args {
+						if c.Src(a) == "req" {
+							reqTo = append(reqTo, c.Src(n.Fun))
+						}
+					}
+				}
+				return true
+			})
+			sort.Strings(reqTo)
+			c.Fact("sessions.post_body_read_by_transport_only", map[string]any{"req_body_refs": bodyRefs, "req_passed_to": uniq(reqTo)})
+		} else {
+			c.Fact("sessions.post_body_read_by_transport_only", "<serveStatefulPOST not found>")
+		}
+
 		// --- h.sessions only under h.mu
 		mapAcc := map[string]any{}
 		for _, fd := range c.Methods(dir, "StreamableHTTPHandler") {
